@@ -164,6 +164,8 @@ func runC02(c *core.Ctx) {
 		good := a.Confirmations[0]
 		good.NotOnOrAfter = samlgen.S(std(instantAt(kSCD, posFarIn, now, t)))
 		switch s.confs {
+		case 0: // a Subject without any SubjectConfirmation: the other four windows are all there is
+			a.Confirmations = nil
 		case 1:
 			a.Confirmations = []samlgen.Confirmation{varied}
 		case 2:
@@ -198,7 +200,10 @@ func runC02(c *core.Ctx) {
 		checkAPIContract(t, a, err)
 		v := core.MustAccept
 		allFar := true
-		for _, p := range s.pos {
+		for pi, p := range s.pos {
+			if s.confs == 0 && pi == kSCD {
+				continue // there is no confirmation whose NotOnOrAfter could be out
+			}
 			if p == posOut || p == posFarOut {
 				v = core.MustReject
 			}
@@ -206,7 +211,7 @@ func runC02(c *core.Ctx) {
 				allFar = false
 			}
 		}
-		if v == core.MustAccept && s.method != "" && s.confs == 1 {
+		if v == core.MustAccept && (s.method != "" && s.confs == 1 || s.confs == 0) {
 			v = core.DontCare // no obligation to accept an assertion without any bearer confirmation
 		}
 		if !allFar || s.form != nil || s.second || s.confs != 1 || s.idpInit || s.noDest || s.method != "" || s.hooks {
@@ -273,8 +278,8 @@ func runC02(c *core.Ctx) {
 				{"nodest/A", false, true, harness.Layout{SignAssertion: true}, "", false}, {"idpinit+nodest/A", true, true, harness.Layout{SignAssertion: true}, "", false},
 				{"holder-of-key/R", false, false, harness.Layout{SignResponse: true}, "urn:oasis:names:tc:SAML:2.0:cm:holder-of-key", false},
 				{"sender-vouches/A", false, false, harness.Layout{SignAssertion: true}, "urn:oasis:names:tc:SAML:2.0:cm:sender-vouches", false}} {
-				for _, confs := range []int{1, 2, 3} {
-					if opt.method == "" && confs == 2 {
+				for _, confs := range []int{0, 1, 2, 3} {
+					if opt.method == "" && confs == 2 || confs == 0 && (opt.method != "" || opt.idpInit || opt.noDest) {
 						continue
 					}
 					key := fmt.Sprintf("opt=%s/tol=%s/resp=%s/ass=%s/nb=%s/nooa=%s/scd=%s/confs=%d", opt.name, tl.name,
